@@ -42,6 +42,12 @@ func eqKey(a, b types.Object) [2]types.Object {
 
 func (s *c07State) equalPts(a, b types.Object) bool { return a == b || s.eq[eqKey(a, b)] }
 
+// c07Nil marks a result variable that holds no value yet (declared with var, nil until assigned): it is vacuously
+// consistent with every point.
+var c07Nil types.Object = types.NewVar(0, nil, "<nil>", types.Typ[types.Int])
+
+func atHas(m map[types.Object]bool, p types.Object) bool { return m[p] || m[c07Nil] }
+
 // class: all variables known to hold the value of v
 func (s *c07State) class(v types.Object) map[types.Object]bool {
 	r := map[types.Object]bool{v: true}
@@ -97,9 +103,22 @@ func (s *c07State) join(o *c07State) *c07State {
 			continue
 		}
 		r.at[k] = map[types.Object]bool{}
-		for p := range m {
-			if om[p] {
+		switch {
+		case m[c07Nil] && om[c07Nil]:
+			r.at[k][c07Nil] = true
+		case m[c07Nil]:
+			for p := range om {
 				r.at[k][p] = true
+			}
+		case om[c07Nil]:
+			for p := range m {
+				r.at[k][p] = true
+			}
+		default:
+			for p := range m {
+				if om[p] {
+					r.at[k][p] = true
+				}
 			}
 		}
 	}
@@ -506,7 +525,40 @@ func (f *c07Func) transfer(s *c07State, n ast.Node) {
 		if call, ok := st.X.(*ast.CallExpr); ok {
 			handleCall(call, nil)
 		}
-	case *ast.IncDecStmt, *ast.DeclStmt, *ast.ReturnStmt, *ast.BranchStmt:
+	case *ast.DeclStmt:
+		if gd, ok := st.Decl.(*ast.GenDecl); ok && gd.Tok == token.VAR {
+			for _, sp := range gd.Specs {
+				vs, ok := sp.(*ast.ValueSpec)
+				if !ok || len(vs.Values) != 0 {
+					continue
+				}
+				for _, nm := range vs.Names {
+					o := f.info.Defs[nm]
+					if o == nil || f.points[o] {
+						continue
+					}
+					switch o.Type().Underlying().(type) {
+					case *types.Interface, *types.Pointer, *types.Slice:
+						s.at[o] = map[types.Object]bool{c07Nil: true}
+					}
+				}
+			}
+		}
+	case *ast.ValueSpec:
+		// go/cfg adds each var specification as its own node
+		if len(st.Values) == 0 {
+			for _, nm := range st.Names {
+				o := f.info.Defs[nm]
+				if o == nil || f.points[o] {
+					continue
+				}
+				switch o.Type().Underlying().(type) {
+				case *types.Interface, *types.Pointer, *types.Slice:
+					s.at[o] = map[types.Object]bool{c07Nil: true}
+				}
+			}
+		}
+	case *ast.IncDecStmt, *ast.ReturnStmt, *ast.BranchStmt:
 	case ast.Expr:
 		ast.Inspect(st, func(m ast.Node) bool {
 			if _, isLit := m.(*ast.FuncLit); isLit {
@@ -795,7 +847,7 @@ func (f *c07Func) run() {
 				bad := ""
 				for _, r := range res {
 					for _, pt := range pts {
-						if !s.at[r][pt] {
+						if !atHas(s.at[r], pt) {
 							bad = fmt.Sprintf("%s was evaluated at %s, not (on every path) at %s", r.Name(), describe(s, r), pt.Name())
 						}
 					}
@@ -838,7 +890,7 @@ func (f *c07Func) run() {
 						}
 						bad := ""
 						for _, r := range res {
-							if !s.at[r][rv] {
+							if !atHas(s.at[r], rv) {
 								bad = fmt.Sprintf("%s was evaluated at %s", r.Name(), describe(s, r))
 							}
 						}
@@ -957,6 +1009,44 @@ func checkLineSearchSiblings(c *core.Ctx) {
 			return true
 		})
 	}
+	// the values at alpha = 0 keep their names across the phases: an argument bound to a parameter that has the name of a
+	// variable of the caller (y0, g0: phi(0), phi'(0)) must be that variable
+	core.EachFunc(p, func(_ *ast.File, fd *ast.FuncDecl) {
+		if fd.Body == nil {
+			return
+		}
+		ast.Inspect(fd.Body, func(n ast.Node) bool {
+			call, ok := n.(*ast.CallExpr)
+			if !ok {
+				return true
+			}
+			fn := core.Callee(info, call)
+			if fn == nil || fn.Pkg() != p.Types {
+				return true
+			}
+			sig := fn.Type().(*types.Signature)
+			for k := 0; k < sig.Params().Len() && k < len(call.Args); k++ {
+				pn := sig.Params().At(k).Name()
+				if !strings.HasSuffix(pn, "0") {
+					continue
+				}
+				// the caller has a variable of that name in scope at the call
+				inner := p.Types.Scope().Innermost(call.Pos())
+				if inner == nil {
+					continue
+				}
+				_, obj := inner.LookupParent(pn, call.Pos())
+				if obj == nil {
+					continue
+				}
+				cons := fmt.Sprintf("algorithm/lineSearch.%s call %s@%s", fd.Name.Name, fn.Name(), shortPos(c, call.Pos()))
+				got := types.ExprString(call.Args[k])
+				c.Check(got == pn, "C07.R4", cons, "parameter "+pn+" receives the caller's "+pn, call.Pos(),
+					fmt.Sprintf("%s is called with %s for its parameter %s (the value at alpha = 0) although the caller has its own %s: the second phase tests the Wolfe conditions against the wrong reference value", fn.Name(), got, pn, pn))
+			}
+			return true
+		})
+	})
 	if len(accepts) < 2 {
 		c.Unknown("C07.R4", "algorithm/lineSearch", "acceptance tests found in both phases", 0, fmt.Sprintf("found %d acceptance tests (curvature condition with c2)", len(accepts)))
 		return
